@@ -22,20 +22,20 @@ from harness.framework import run_check, MachineryError, VERIF
 
 SPEC = os.path.join(VERIF, 'specs', 'Lifecycle')
 INVS = ['CloseOnceAndLast', 'LegalOrder', 'NoChannelLeft',
-        'AllWaitersResolved', 'MadeImpliesLost']
+        'AllWaitersResolved', 'MadeImpliesLost', 'CreateDecided']
 
 
 def write_cfg(name, consts, invariants=(), properties=(), view=True,
-              spec='Spec'):
-    d = dict(Chans='{1}', Reject='{}', MaxOps=3, Cuts=1,
-             ResolveOnConnCleanup='TRUE')
+              spec='Spec', viewname='view'):
+    d = dict(Chans='{1}', Reject='{}', MaxOps=3, Cuts=1, WithData='FALSE', ConnOps='TRUE',
+             FailReqOnClose='TRUE', ResolveOnConnCleanup='TRUE')
     d.update(consts)
     lines = ['CONSTANTS'] + [f'  {k} = {v}' for k, v in d.items()]
     lines += [f'SPECIFICATION {spec}', 'CHECK_DEADLOCK FALSE']
     lines += [f'INVARIANT {i}' for i in invariants]
     lines += [f'PROPERTY {p}' for p in properties]
     if view:
-        lines.append('VIEW view')
+        lines.append(f'VIEW {viewname}')
     with open(os.path.join(SPEC, name), 'w') as f:
         f.write('\n'.join(lines) + '\n')
     return name, d
@@ -76,19 +76,29 @@ def main(ctx):
     mc(ctx, 'c09_mc1', dict(MaxOps=4), INVS)
     mc(ctx, 'c09_mc2', dict(Chans='{1, 2}', Reject='{2}',
                             MaxOps=4 if quick else 5), INVS)
+    mc(ctx, 'c09_mcd', dict(MaxOps=5 if quick else 6, WithData='TRUE'), INVS)
     if not quick:
         mc(ctx, 'c09_mc3', dict(Chans='{1, 2}', MaxOps=5), INVS)
+        mc(ctx, 'c09_mcd2', dict(Chans='{1, 2}', MaxOps=5, WithData='TRUE'),
+           INVS)
     mc(ctx, 'c09_live', dict(MaxOps=3), [], properties=['Terminates'],
        spec='LiveSpec', view=False)
     mc(ctx, 'c09_sens', dict(MaxOps=2, ResolveOnConnCleanup='FALSE'),
        ['AllWaitersResolved'], expect='AllWaitersResolved')
+    mc(ctx, 'c09_sens2', dict(MaxOps=5, WithData='TRUE',
+                              FailReqOnClose='FALSE'),
+       ['CreateDecided'], expect='CreateDecided')
     mc(ctx, 'c09_w1', dict(MaxOps=1), ['NeverStarted'], expect='NeverStarted')
     mc(ctx, 'c09_w2', dict(MaxOps=2), ['NeverErr'], expect='NeverErr')
+    mc(ctx, 'c09_w3', dict(MaxOps=5, WithData='TRUE'), ['NeverClosePending'],
+       expect='NeverClosePending')
     # ---- 2. replay ----
     n = 60 if quick else 600
     sims = [('one', dict(MaxOps=4), n, 45),
             ('two', dict(Chans='{1, 2}', Reject='{2}', MaxOps=5), n, 60),
-            ('twoacc', dict(Chans='{1, 2}', MaxOps=6), n, 70)]
+            ('twoacc', dict(Chans='{1, 2}', MaxOps=6), n, 70),
+            ('data', dict(MaxOps=7, WithData='TRUE'), n * 2, 70),
+            ('data2', dict(Chans='{1, 2}', MaxOps=8, WithData='TRUE'), n, 80)]
     total = 0
     for name, consts, num, depth in sims:
         traces, d = sim(f'c09_sim_{name}', consts, num, depth, ctx.seed + 3)
@@ -122,6 +132,59 @@ def main(ctx):
                               f'{r["loop_exceptions"][0]}',
                               replay={'kind': 'behaviour', 'config': name,
                                       'script': r['script']})
+    # state-covering scripts: exhaustive BFS with the script history hidden by
+    # the VIEW makes TLC print ONE shortest behaviour for every distinct
+    # reachable quiescent state; each is replayed and the implementation's
+    # final state compared with that state
+    deep = [('cover1', dict(MaxOps=5 if quick else 6, WithData='TRUE',
+                            ConnOps='FALSE', Cuts=0), 700 if quick else 6000),
+            ('cover2', dict(MaxOps=4 if quick else 5, WithData='TRUE'),
+             500 if quick else 5000),
+            ('cover3', dict(Chans='{1, 2}', Reject='{2}', MaxOps=4 if quick
+                            else 5, WithData='TRUE', ConnOps='FALSE'),
+             400 if quick else 4000)]
+
+    def cls(script, st):
+        return (str([st[k] for k in ('ss', 'rs', 'reading', 'createW',
+                                     'reqW', 'up', 'connClosed')]),
+                str(script[-1]))
+
+    for name, consts, keep in deep:
+        cfg, d = write_cfg(f'_c09_{name}.cfg', consts,
+                           invariants=['EmitScript'], view=True,
+                           viewname='viewL')
+        scripts, res = tlc.bfs_scripts(SPEC, 'Lifecycle', cfg, f'c09_{name}')
+        ctx.require_tlc_ok(f'Lifecycle {name} (script emission) {consts}',
+                           res)
+        tlc.cleanup(f'c09_{name}')
+        os.remove(os.path.join(SPEC, cfg))
+        ctx.require(len(scripts) > 20, f'too few scripts for {name}')
+        chans = [int(x) for x in d['Chans'].strip('{}').split(',')]
+        reject = [int(x) for x in d['Reject'].strip('{}').split(',')
+                  if x.strip()]
+        # one per (state class, last operation) first, then the rest
+        first, rest, seen = [], [], set()
+        for sc, st in scripts:
+            k = cls(sc, st)
+            (rest if k in seen else first).append((sc, st))
+            seen.add(k)
+        ctx.coverage.setdefault('state_classes_covered', 0)
+        ctx.coverage['state_classes_covered'] += len(first)
+        for script, final in (first + rest)[:keep]:
+            steps = [(lbl, None) for lbl in script]
+            r = lifecycle.replay(steps, chans, reject, final=final)
+            total += 1
+            ctx.count((name, tuple(map(str, r['script']))))
+            if r['l1']:
+                ctx.violation({'module': 'Lifecycle',
+                               'clauses': sorted({c.split(':')[0]
+                                                  for c in r['l1']})},
+                              '; '.join(r['l1'][:4]),
+                              replay={'kind': 'script', 'config': name,
+                                      'script': r['script']})
+            elif r['diverged']:
+                ctx.divergence(f'{name}: {r["diverged"]} script='
+                               f'{r["script"]}')
     ctx.traces_validated(total)
     # ---- 3. crash points ----
     os.makedirs(tlc.WORK, exist_ok=True)
